@@ -141,7 +141,7 @@ class Sym(object):
 
 DEFAULT_W = dict(query=30, refit=12, threshold=10, calibrate=6, handout=8,
                  mutate=3, restart=7, clone=4, ambient=5, eigsh=3, set_nondata=4,
-                 failfit=3, fault=0, new=6, sweep=0, swap_pre=3, interrupt=0, mutate_store=0)
+                 failfit=3, fault=0, new=6, sweep=0, swap_pre=3, interrupt=0, mutate_store=0, alias=0)
 
 
 def gen_history(seed, tier, classes=None, weights=None, n_ops=(6, 16),
@@ -251,6 +251,11 @@ def gen_history(seed, tier, classes=None, weights=None, n_ops=(6, 16),
       if p is None:
         return
       ops.append(dict(op="set_params", h=s.hid, params=p))
+      if s.fitted and s.fit_data and r.random() < 0.35:
+        # hyper-parameters only take effect at the next fit: ask the (still
+        # fitted) estimator something in between
+        ops.append(dict(op="query", h=s.hid, method=r.choice(methods(s)),
+                        probe=dict(probe(s), data=s.fit_data)))
       s.params = dict(getattr(s, "params", {}) or {}, **p)
       s.data = dk
     via = "indices" if (s.pre and r.random() < 0.6) else "formed"
@@ -448,6 +453,14 @@ def gen_history(seed, tier, classes=None, weights=None, n_ops=(6, 16),
               ops.append(dict(op="query", h=s.hid, method=mth,
                               probe=dict(probe(s), data=r.choice([other, s.fit_data or other]),
                                          via=r.choice(["indices", "formed"]))))
+        if s.name in PAIRS and newpre and r.random() < 0.3 and \
+            _data(datasets[other]).d == _data(datasets[s.fit_data or other]).d:
+          # calibrate_threshold after the swap, without a refit: it re-derives
+          # preprocessor_ from the parameter, so the indicators are resolved in
+          # the *new* store - the metric stays the fitted one
+          ops.append(dict(op="calibrate", h=s.hid, data=other, seed=r.randrange(1000),
+                          m=r.randint(4, 12), noise=r.choice([0, 0.2, 0.5]), dups=r.random() < 0.4,
+                          cp=gen_cp(r, False), via="indices", after_swap=True))
         if r.random() < 0.7:
           fit_op(s, other)
         else:
@@ -455,6 +468,17 @@ def gen_history(seed, tier, classes=None, weights=None, n_ops=(6, 16),
           # must preserve exactly that state
           ops.append(dict(op="restart", h=s.hid, how="inproc"))
           fit_op(s, other)
+    elif k == "alias":
+      cl, al, rp, val = r.choice([("ITML_Supervised", "num_constraints", "n_constraints", 17),
+                                  ("MMC_Supervised", "num_constraints", "n_constraints", 23),
+                                  ("LSML_Supervised", "num_constraints", "n_constraints", 11),
+                                  ("SDML_Supervised", "num_constraints", "n_constraints", 13),
+                                  ("ITML", "convergence_threshold", "tol", 0.02),
+                                  ("ITML_Supervised", "convergence_threshold", "tol", 0.03),
+                                  ("MMC", "convergence_threshold", "tol", 0.04),
+                                  ("RCA_Supervised", "num_chunks", "n_chunks", 7),
+                                  ("LMNN", "k", "n_neighbors", 2)])
+      ops.append(dict(op="alias_new", cls=cl, alias=al, repl=rp, value=val))
     elif k == "mutate_store":
       # the caller edits the array / list / table its estimators read through, in
       # place, and fits again
@@ -477,9 +501,29 @@ def gen_history(seed, tier, classes=None, weights=None, n_ops=(6, 16),
         cand["tol"] = r.choice([1e-4, 1e-2])
       if "random_state" in cp:
         cand["random_state"] = r.randrange(10**6)
+      if "diagonal" in cp:
+        cand["diagonal"] = r.choice([True, False])
+      if "n_components" in cp:
+        cand["n_components"] = r.choice([None, 1, 2])
+      if "embedding_type" in cp:
+        cand["embedding_type"] = r.choice(["weighted", "orthonormalized", "plain"])
+      if "sparsity_param" in cp:
+        cand["sparsity_param"] = r.choice([0.01, 0.5])
+      if "gamma" in cp:
+        cand["gamma"] = r.choice([0.5, 2.0])
       if cand:
         key = r.choice(sorted(cand))
         ops.append(dict(op="set_params", h=s.hid, params={key: cand[key]}, nondata=True))
+        if s.fitted and r.random() < 0.5:
+          ops.append(dict(op="query", h=s.hid, method=r.choice(methods(s)), probe=probe(s)))
+        if key in ("diagonal", "n_components", "embedding_type", "sparsity_param", "gamma"):
+          # put the drawn value back before anything is fitted with it (it was
+          # drawn for the data at hand; the detour must leave no trace)
+          old_v = (getattr(s, "params", None) or {}).get(key, "<default>")
+          if old_v == "<default>":
+            fit_op(s, s.data, regen=True)
+          else:
+            ops.append(dict(op="set_params", h=s.hid, params={key: old_v}, nondata=True))
     elif k == "failfit":
       ops.append(dict(op="fit", h=s.hid, data=s.data, via="formed",
                       malformed=r.choice(["nan", "short_y"])))
